@@ -124,7 +124,7 @@ PROPS["C11"] = {
     "assumptions": [],
 }
 PROPS["C19"] = {
-    "rules": [r_task.rule_M1, r_task.rule_M2, r_task.rule_M3, r_task.rule_M4, r_task.rule_M5, r_task.rule_M6, r_task.rule_M7, r_task.rule_M8, r_task.rule_M9, r_taskdb.rule_A1, r_task.rule_M10],
+    "rules": [r_task.rule_M1, r_task.rule_M2, r_task.rule_M3, r_task.rule_M4, r_task.rule_M5, r_task.rule_M6, r_task.rule_M7, r_task.rule_M8, r_task.rule_M9, r_taskdb.rule_A1, r_task.rule_M10, r_task.rule_M11],
     "explanation": "A1: what the mutators recorded is what the commit stores - the batch application writes every cached update (also when a Create for the same task follows in the batch); M1 single writer of the task map / single constructor of Operations; M2 TaskData::update records the looked-up previous value (lookup precedes the change), delete records the old task; M3 every public Task mutator funnels into TaskData::update; M4 `modified` refresh table of set_value (exhaustive, 6 paths) incl. the once-per-session flag; M5 status/end table of set_status (8 rows); M6 reserved-name guards dominate the writes; M7 writer/reader key-prefix vocabulary and timestamp encoding; M8 synthetic-tag table and pending-gated dependency edges.",
     "not_decided": "agreement of the held object with storage after commit for all mutator sequences (follows from M1-M3 + C05, but is a statement about sequences)",
     "assumptions": [],
@@ -175,10 +175,10 @@ G_TRANSFORM = [r_transform.rule_TP1, r_transform.rule_WIN, r_transform.rule_CANC
 G_WIRE = [r_wire.rule_W1, r_wire.rule_W2, r_wire.rule_W3, r_wire.rule_W4]
 G_APPLY = [r_taskdb.rule_A1, r_taskdb.rule_L1, r_taskdb.rule_L2, _T1_commit, r_taskdb.rule_ERR]
 G_SNAP = [r_storage.rule_N3, r_storage.rule_N3_overrides, r_storage.rule_N4, r_storage.rule_N5]
-G_SQLITE = [r_storage.rule_D, r_storage.rule_D6, r_storage.rule_Q1, r_storage.rule_Q2, r_storage.rule_Q3, r_storage.rule_Q4, r_storage.rule_Q5, r_storage.rule_Q7]
+G_SQLITE = [r_storage.rule_D, r_storage.rule_D6, r_storage.rule_Q1, r_storage.rule_Q2, r_storage.rule_Q3, r_storage.rule_Q4, r_storage.rule_Q5, r_storage.rule_Q7, r_storage.rule_Q9]
 G_INMEM = [r_storage.rule_Q6, r_storage.rule_Q8]
 G_SRV = [r_servers.rule_P1, r_servers.rule_P2, r_servers.rule_P4, r_servers.rule_P5, r_servers.rule_A1_local, r_servers.rule_A1_drop, _K_core, r_servers.rule_K7,
-         r_servers.rule_GI, r_servers.rule_GC, r_servers.rule_GC3, r_servers.rule_GC4, r_servers.rule_GS1, r_servers.rule_GS2, r_servers.rule_GC6, _ED]
+         r_servers.rule_GI, r_servers.rule_GC, r_servers.rule_GC3, r_servers.rule_GC4, r_servers.rule_GS1, r_servers.rule_GS2, r_servers.rule_GC6, r_servers.rule_GK1, _ED]
 G_CRYPTO = [r_crypto.rule_X1, r_crypto.rule_X2, r_crypto.rule_X3, r_crypto.rule_X4, r_crypto.rule_X5, r_crypto.rule_X6, r_crypto.rule_X7, r_crypto.rule_X8]
 G_WS = [r_taskdb.rule_R1, r_taskdb.rule_R2, r_taskdb.rule_R3, r_taskdb.rule_R4, r_taskdb.rule_R5, r_taskdb.rule_R6, r_taskdb.rule_R7, r_taskdb.rule_R8]
 
